@@ -268,6 +268,8 @@ class _Gen:
             op["live"] = self._live() or 0
             op["step"] = rng.randint(0, 3)
             op["value"] = self.ival()
+            if rng.random() < 0.15:
+                op["io_error"] = True  # journal file deployments only
         elif what in ("trial.set_user_attr", "trial.set_system_attr"):
             op["live"] = self._live() or 0
             op["key"] = self.key()
@@ -875,7 +877,29 @@ class _Run:
                 if what == "trial.suggest":
                     self._suggest(t, op["name"])
                 elif what == "trial.report":
-                    t.report(_f(op["value"]), op["step"])
+                    fs_ = self.dep.fs if self.kind.startswith("jf") else None
+                    if op.get("io_error") and fs_ is not None:
+                        # the journal's fsync reports EIO once (the record has reached the file):
+                        # report() raises OSError; the objective carries on with the same Trial
+                        fired = [False]
+
+                        def _eio(task_: Any, op_: str) -> Any:
+                            if op_ == "fsync" and not fired[0]:
+                                fired[0] = True
+                                return 5
+                            return None
+
+                        prev = fs_.io_fault
+                        fs_.io_fault = _eio
+                        try:
+                            try:
+                                t.report(_f(op["value"]), op["step"])
+                            except OSError:
+                                self.sim.count("fault:report_io_error")
+                        finally:
+                            fs_.io_fault = prev
+                    else:
+                        t.report(_f(op["value"]), op["step"])
                 elif what == "trial.set_user_attr":
                     t.set_user_attr(op["key"], _fresh(op["value"]))
                 else:
